@@ -688,6 +688,7 @@ pub fn user_props_dig(u: &UserProperties) -> String {
         s.push_str(&format!("{}={},", str_dig(k), str_dig(v)));
         n += 1;
     }
+    std::hint::black_box(format!("{:?}", u));
     // cross-check the other accessors against iter()
     let keys: Vec<&str> = u.keys().collect();
     let vals: Vec<&str> = u.values().collect();
@@ -843,6 +844,24 @@ pub fn connect_result_dig(r: &Result<Either<ConnectRsp, AuthRsp>, MqttError>) ->
 }
 
 pub fn err_dig(e: &MqttError) -> String {
+    // An error the client hands out is also printed by its caller (the README does `{}` on run()'s
+    // result): Display, Debug and source() are library code fed with what the server sent, and run
+    // here inside the poll of the task that received the error, i.e. under the panic guard.
+    {
+        use std::error::Error;
+        let shown = format!("{} | {:?}", e, e);
+        let mut src = e.source();
+        let mut depth = 0;
+        while let Some(s) = src {
+            let _ = format!("{} | {:?}", s, s);
+            src = s.source();
+            depth += 1;
+            if depth > 8 {
+                break;
+            }
+        }
+        std::hint::black_box(shown);
+    }
     match e {
         MqttError::InternalError(_) => "Err:InternalError".into(),
         MqttError::ConnectError(c) => format!(
